@@ -51,6 +51,7 @@ class Features:
         self.unique_shorts = False  # unqualified names unique within a schema
         self.ns_pool = None  # override of NAMESPACES
         self.tuples_in_unions = False  # with tuple notation disabled a tuple is an ordinary sequence everywhere
+        self.int_float_defaults = False  # JSON integer literals as defaults of float/double fields
         self.ambiguous_union_defaults = False  # known finding F-UNION-DEFAULT-BRANCH (C01): excluded by construction
         self.__dict__.update(kw)
 
@@ -285,6 +286,8 @@ class SchemaBuilder:
         if k == "long":
             return d.choice([0, -1, 7, 2**40, -(2**63), 2**63 - 1])
         if k in ("float", "double"):
+            if f.int_float_defaults and d.p(0.3):
+                return d.choice([3, 0, -7])  # a JSON integer literal is a valid default of a float/double
             return d.choice([0.0, 1.5, -2.25, 1e10, 3.0])
         if k == "string":
             return d.choice(["", "dflt", "é"])
